@@ -205,9 +205,9 @@ Proof.
   set (w1 := set_w_hold (N.min (w_hold w) h) w).
   assert (H1 : J c w1) by (revert H; apply J_frame; reflexivity).
   assert (Hl1 : Lv c w1) by (revert Hl; apply Lv_frame; reflexivity).
-  apply (J_frame c (if negb (w_hold w1 =? 0) && (w_hold w1 <? 3)
+  apply (J_frame c (if hold_refused h (w_hold w1)
                     then F_open_message_error c_ERR_MSG_OPEN_UNACCPT_HOLD_TIME [] w1 else w1)); try reflexivity.
-  destruct (_ && _); auto using J_open_message_error.
+  destruct (hold_refused _ _); auto using J_open_message_error.
 Qed.
 
 Lemma J_open_received w : J c w -> Lv c w -> J c (F_open_received w).
@@ -224,7 +224,7 @@ Proof.
   set (w1 := set_w_hold (N.min (w_hold w) h) w).
   assert (H1 : J c w1) by (revert H; apply J_frame; reflexivity).
   assert (Hl1 : Lv c w1) by (revert Hl; apply Lv_frame; reflexivity).
-  destruct (negb (w_hold w1 =? 0) && (w_hold w1 <? 3)).
+  destruct (hold_refused h (w_hold w1)).
   - (* refused: the error handler has closed the connection and gone to Idle; the OPEN handler does nothing *)
     destruct H1 as (A & B & C). destruct (live_sess c w1 B Hl1) as [Hs Hp].
     assert (Hg : Good c w1) by (split; [exact Hp|apply Hl1]).
